@@ -9,7 +9,7 @@ from   pyflyby._importclns      import ImportSet, NoSuchImportError
 from   pyflyby._importdb        import ImportDB
 from   pyflyby._importstmt      import ImportFormatParams, ImportStatement
 from   pyflyby._log             import logger
-from   pyflyby._parse           import PythonBlock
+from   pyflyby._parse           import PythonBlock, _ast_str_literal_value
 from   pyflyby._util            import ImportPathCtx, Inf, NullCtx, memoize
 import re
 
@@ -259,8 +259,9 @@ class SourceToSourceFileImportsTransformation(SourceToSourceTransformationBase):
             if is_prologue and not statement.is_comment_or_blank:
                 # A string literal.  Only the first one is the docstring; new
                 # imports (e.g. "from __future__ import ...") can't go after
-                # a second one.
-                if seen_docstring:
+                # a second one.  A bytes literal is never a docstring.
+                if seen_docstring or not isinstance(
+                        _ast_str_literal_value(statement.ast_node), str):
                     is_prologue = False
                 seen_docstring = True
             if not is_prologue:
